@@ -163,58 +163,50 @@ const (
 	MaxU32 = uint64(4294967295)
 )
 
-// Menu is the batch menu of part A: every event type occurs, batches mix
-// types, one is empty, one holds identical events, the optional key of
-// UnbondEvent is both nil and set, amounts 0 / 1 / 40 digits, coin ids
-// 0 / 1 / 2^32-1. Inside one event all field values differ, so any swap of two
-// stored fields shows.
+// Menu is the batch menu of part A. The batches are cut along the way the
+// store treats the events: both id tables (stake events), the key table only
+// (jail), the address table only (unlock, expired order, key-less unbond),
+// neither table (events stored inline), and a mix. Every event type occurs,
+// one batch is empty, three hold pairs of identical events, the optional key
+// of UnbondEvent is both nil and set, amounts are 0 / 1 / 40 digits / other,
+// coin ids 0 / 1 / 2^32-1 / other. Inside one event all field values differ, so
+// a swap of two stored fields shows.
 var Menu = [][]Spec{
 	0: {},
-	1: { // rewards, every role
+	1: { // both tables
 		{Kind: KReward, Role: "Validator", A: 0, K: 0, Amount: "1", Coin: 0},
 		{Kind: KReward, Role: "Delegator", A: 1, K: 0, Amount: Big40, Coin: MaxU32},
-		{Kind: KReward, Role: "DAO", A: 2, K: 1, Amount: "0", Coin: 1},
-		{Kind: KReward, Role: "Developers", A: 3, K: 1, Amount: "1000000000000000000", Coin: 2},
+		{Kind: KSlash, A: 0, K: 1, Amount: Big40, Coin: 1},
+		{Kind: KKick, A: 1, K: 0, Amount: "0", Coin: MaxU32},
+		{Kind: KUnbond, A: 1, K: 1, Amount: Big40, Coin: 1},
 	},
-	2: { // penalties
-		{Kind: KSlash, A: 0, K: 0, Amount: Big40, Coin: 1},
+	2: { // key table only, with an identical pair
 		{Kind: KJail, K: 0, N: 12345678901234},
 		{Kind: KJail, K: 1, N: 0},
-		{Kind: KSlash, A: 1, K: 1, Amount: "1", Coin: MaxU32},
+		{Kind: KJail, K: 0, N: 9},
+		{Kind: KJail, K: 0, N: 9},
 	},
-	3: { // unbonds with nil and set key, unlocks
-		{Kind: KUnbond, A: 0, K: -1, Amount: "1", Coin: 0},
-		{Kind: KUnbond, A: 1, K: 1, Amount: Big40, Coin: 1},
+	3: { // address table only (a nil key is stored as id 0), with an identical pair
 		{Kind: KUnlock, A: 0, Amount: "0", Coin: MaxU32},
-		{Kind: KUnlock, A: 2, Amount: Big40, Coin: 1},
-	},
-	4: { // kicks and moves
-		{Kind: KKick, A: 1, K: 0, Amount: "1", Coin: MaxU32},
-		{Kind: KMove, A: 0, K: 0, K2: 1, Amount: Big40, Coin: 1},
-		{Kind: KMove, A: 2, K: 2, K2: 0, Amount: "0", Coin: 0},
-		{Kind: KMove, A: 3, K: 1, K2: 1, Amount: "7", Coin: 2},
-	},
-	5: { // expired orders, candidate removals
-		{Kind: KOrder, A: 0, N: 1, Coin: 0, Amount: "2"},
 		{Kind: KOrder, A: 3, N: MaxU32, Coin: 1, Amount: Big40},
 		{Kind: KOrder, A: 1, N: 77, Coin: MaxU32, Amount: "0"},
-		{Kind: KRemove, K: 1},
-		{Kind: KRemove, K: 3},
+		{Kind: KUnbond, A: 0, K: -1, Amount: "1", Coin: 0},
+		{Kind: KUnbond, A: 2, K: -1, Amount: "3", Coin: 2},
+		{Kind: KUnbond, A: 2, K: -1, Amount: "3", Coin: 2},
 	},
-	6: { // governance
+	4: { // two keys per event
+		{Kind: KMove, A: 0, K: 0, K2: 1, Amount: Big40, Coin: 1},
+		{Kind: KMove, A: 2, K: 2, K2: 0, Amount: "0", Coin: 0},
+		{Kind: KMove, A: 3, K: 1, K2: 1, Amount: "7", Coin: MaxU32},
+	},
+	5: { // stored inline, no table
 		{Kind: KNetwork, S: "v2.6.0"},
 		{Kind: KCommissions, Coin: 1, S: "9"},
 		{Kind: KBlockReward, Amount: Big40, S: "1"},
+		{Kind: KRemove, K: 1},
+		{Kind: KRemove, K: 3},
 	},
-	7: { // identical events
-		{Kind: KReward, Role: "Delegator", A: 1, K: 1, Amount: "5", Coin: 1},
-		{Kind: KReward, Role: "Delegator", A: 1, K: 1, Amount: "5", Coin: 1},
-		{Kind: KUnbond, A: 0, K: -1, Amount: "3", Coin: 2},
-		{Kind: KUnbond, A: 0, K: -1, Amount: "3", Coin: 2},
-		{Kind: KJail, K: 0, N: 9},
-		{Kind: KJail, K: 0, N: 9},
-	},
-	8: { // one of every type on the late slots
+	6: { // mix on the late slots, with an identical pair
 		{Kind: KUnbond, A: 4, K: 3, Amount: "1", Coin: MaxU32},
 		{Kind: KReward, Role: "DAO", A: 5, K: 4, Amount: Big40, Coin: 0},
 		{Kind: KNetwork, S: "v3"},
@@ -223,16 +215,17 @@ var Menu = [][]Spec{
 		{Kind: KUnlock, A: 5, Amount: "1", Coin: 0},
 		{Kind: KKick, A: 3, K: 3, Amount: Big40, Coin: 1},
 		{Kind: KMove, A: 4, K: 4, K2: 3, Amount: "1", Coin: MaxU32},
-		{Kind: KCommissions, Coin: MaxU32, S: "1"},
 		{Kind: KOrder, A: 5, N: 3, Coin: 2, Amount: "1"},
 		{Kind: KRemove, K: 4},
 		{Kind: KBlockReward, Amount: "0", S: Big40},
 		{Kind: KUnbond, A: 5, K: -1, Amount: "0", Coin: 1},
+		{Kind: KReward, Role: "Developers", A: 1, K: 1, Amount: "1000000000000000000", Coin: 1},
+		{Kind: KReward, Role: "Developers", A: 1, K: 1, Amount: "1000000000000000000", Coin: 1},
 	},
 }
 
 // MenuNames label the menu batches in samples and details.
-var MenuNames = []string{"empty", "rewards", "penalties", "unbond/unlock", "kick/move", "orders/remove", "governance", "identical-pairs", "all-types"}
+var MenuNames = []string{"empty", "stake(both-tables)", "jail(keys-only)", "unlock/order/unbond-nil(addresses-only)", "move(two-keys)", "inline(no-table)", "mixed-late-slots"}
 
 func show(v reflect.Value) string {
 	switch x := v.Interface().(type) {
